@@ -251,6 +251,14 @@ def run(ctx):
         case = fcase(agree_bad[0]) if agree_bad else gcase(sorted(abad["c04a_agree"])[0])
         ctx.violation("correspondence", {"what": "correspondence Match/Ctl.v / Mgr/Aggregate.v vs the implementation no longer checks (Harness/C04Cmp); theorems C04_* are about the model only",
                                          "disagreeing_case": case}, no_input=True)
+    # the translator tie: ErrorCommsManager.do_i_* / ErrorHandler._handle_if as written in the source of the tree under test, regenerated and
+    # (when the text differs from the checked-in Match/ErrSrc.v) re-proved equal to the model
+    import srctie
+    tie = srctie.check(ctx, "errors")
+    if tie["status"] in ("untranslatable", "unproved") and not ctx.violations:
+        ctx.violation("source-tie", {"what": "the translation of ErrorCommsManager.do_i_* / ErrorHandler._handle_if from csvpath/util/error.py is no longer proved equal to the model: theorem handle_if_src_eq (C04_error_fail_source) "
+                                             "does not check against the source of this tree; the generated cases of this run found no input on which the property fails",
+                                     "theorem": "handle_if_src_eq (C04_error_fail_source)", "tie": tie}, no_input=True)
     ctx.coverage.update({
         "fail_all_groups": len(fa_jobs), "sticky_fail_groups": len(fb_jobs), "evaluations": len(jobs) + len(ejobs) + len(gjobs) + len(fa_jobs) + len(fb_jobs),
         "distinct_nontrivial": len({repr(j[:4]) for j, o in zip(jobs, res) if not o["exc"] and o.get("valid") is False}) + sum(1 for k, gi in enumerate(aidx) if not gres[gi]["runs"][0]["rm_is_valid"]),
@@ -264,6 +272,7 @@ def run(ctx):
         "traces_validated_against_impl": len(jobs) - len(agree_bad) + len(aidx) - len(abad["c04a_agree"]),
         "correspondence": f"fragment model == implementation on {len(jobs) - len(agree_bad)}/{len(jobs)} runs; aggregate model == implementation on {len(aidx) - len(abad['c04a_agree'])}/{len(aidx)} groups",
     })
+    ctx.coverage["source_tie"] = {"status": tie["status"], "detail": tie["detail"][:400]}
 
 
 def replay(ctx, payload):
